@@ -41,8 +41,56 @@ class Driver(object):
     ASSUMPTIONS = ['payload decoding is pamqp\'s (frames are produced by '
                    'pamqp.marshal, so every payload is decodable)']
 
+    SPECS = {'consume': dict(
+        header='From AV Require Import Lib.Base Model.ReaderConsume.\nLocal Open Scope Z_scope.',
+        tin='rc_in', tobs='rc_obs', eqb='rc_eqb', model='rc_model', prop='rc_prop_ok',
+        nontriv='rc_nontrivial')}
+
     def __init__(self):
         self.env = None
+
+    def consume_case(self, msgs, cuts):
+        """msgs: [(dtag, body)] delivered on one channel; the byte stream is cut at `cuts`
+        and arrives one piece per sleep of the consuming call."""
+        from harness.core import coq_Z
+        rt, br, conn = vconn.open_connection()
+        ch = conn.channel(rpc_timeout=2)
+        got = []
+        ch.basic.consume(got.append, 'q', consumer_tag='t')
+        stream = b''
+        for dtag, body in msgs:
+            frs = [spec.Basic.Deliver(consumer_tag='t', delivery_tag=dtag, exchange='', routing_key='k'),
+                   pheader.ContentHeader(body_size=len(body), properties=spec.Basic.Properties())]
+            half = max(1, len(body) // 2)
+            frs += [pbody.ContentBody(body[i:i + half]) for i in range(0, len(body), half)]
+            stream += b''.join(pframe.marshal(f, ch.channel_id) for f in frs)
+        cuts = sorted(set(k for k in cuts if 0 < k < len(stream)))
+        chunks = [stream[a:b] for a, b in zip([0] + cuts, cuts + [len(stream)])]
+        pending = list(chunks)
+
+        def feeder():
+            if pending:
+                br.push_bytes(pending.pop(0))
+        rt.idle_hooks.insert(0, feeder)
+        err = None
+        try:
+            for _ in range(len(chunks) + 6):
+                ch.process_data_events()
+                if not pending and len(got) >= len(msgs):
+                    break
+        except Exception as why:
+            err = repr(why)
+        try:
+            conn.close()
+        except Exception:
+            pass
+        cin = '(%s, %s)' % (coq_list(['(%s, %s)' % (coq_Z(d), coq_bytes(b)) for d, b in msgs]),
+                            coq_list([coq_nat(c) for c in cuts]))
+        cobs = coq_list(['(%s, %s)' % (coq_Z(m._method['delivery_tag']), coq_bytes(m._body))
+                         for m in got])
+        return dict(spec='consume', cin=cin, cobs=cobs,
+                    meta=dict(kind='consume', msgs=[(d, b.hex()) for d, b in msgs], cuts=cuts,
+                              error=err, stream='', frames=[], tail='', malformed=False))
 
     def setup(self):
         if self.env:
@@ -225,10 +273,24 @@ class Driver(object):
         for m in bad:
             for cuts in ([], [3], [8, 9], list(range(1, len(m)))):
                 out.append(self.make_case([], b'', cuts, malformed=m))
+        # end to end: a consumer polling between the reads
+        two = [(1, b'ab'), (2, b'')]
+        n2 = 2 * 60
+        for a in range(1, n2, 1 if tier != 'quick' else 3):
+            out.append(self.consume_case(two, [a]))
+        for _ in range(40 if tier == 'quick' else 400):
+            msgs = [(k + 1, bytes(rnd.randrange(256) for _ in range(rnd.choice([0, 1, 3, 10]))))
+                    for k in range(rnd.randrange(1, 4))]
+            mode = rnd.random()
+            cuts = list(range(1, 400)) if mode < 0.15 else \
+                [rnd.randrange(1, 200) for _ in range(rnd.randrange(1, 6))]
+            out.append(self.consume_case(msgs, cuts))
         return out
 
     def replay_cases(self, doc):
         m = doc['case']
+        if m.get('kind') == 'consume':
+            return [self.consume_case([(d, bytes.fromhex(b)) for d, b in m['msgs']], m['cuts'])]
         if m.get('malformed'):
             return [self.make_case([], b'', m['cuts'],
                                    malformed=bytes.fromhex(m['stream']))]
